@@ -502,6 +502,55 @@ func c17SubFlags(nib int, fs []filtIn) *core.Finding {
 	return nil
 }
 
+// c17Will: a PUBLISH after it was passed to SetWill (decoded=false), or the
+// Will() of a CONNECT decoded from the wire (the packet id is not carried).
+func c17Will(topic bool, qos uint8, pid uint16, decoded bool) *core.Finding {
+	resetGlobals()
+	p := mq.NewPublish()
+	if topic {
+		p.SetTopicName("w/t")
+	}
+	p.SetQoS(qos)
+	if pid != 0 {
+		p.SetPacketID(pid)
+	}
+	c := mq.NewConnect()
+	c.SetClientID("cid")
+	c.SetWill(p)
+	subject := p
+	in := pubIn{Topic: topic, QoS: qos, PID: pid}
+	tag := "publish.used-as-will"
+	if decoded {
+		if qos == 3 {
+			return nil // not encodable as will QoS
+		}
+		b, _, err, res := writePacket(c, 0)
+		if err != nil || res.Panic != "" {
+			return nil
+		}
+		q, rerr, res := readPacket(bytes.NewReader(b), stepBudget(len(b)))
+		cc, ok := q.(*mq.Connect)
+		if rerr != nil || res.Panic != "" || res.Budget || !ok || cc.Will() == nil {
+			return nil
+		}
+		subject = cc.Will()
+		in.PID = subject.PacketID()
+		in.Topic = subject.TopicName() != ""
+		in.QoS = subject.QoS()
+		tag = "publish.will-of-decoded-connect"
+	}
+	var wf *mq.Malformed
+	var s string
+	if res := guarded(0, func() { wf = subject.WellFormed(); s = subject.String() }); res.Panic != "" {
+		return nil
+	}
+	if f := judge(tag, wf, s, pubPredicate(in)); f != nil {
+		f.Detail = fmt.Sprintf("%+v: %s", in, f.Detail)
+		return f
+	}
+	return nil
+}
+
 // c17ZeroPublish: the zero value &Publish{} filled through the setters.
 func c17ZeroPublish(topic bool, qos uint8, pid uint16) *core.Finding {
 	resetGlobals()
@@ -589,6 +638,22 @@ func runC17(x *core.Ctx) {
 					topic, qos, pid := topic, qos, pid
 					x.Eval("zero-values")
 					report(c17ZeroPublish(topic, qos, pid), core.Case{Harness: "c17.zero", Params: map[string]any{"topic": topic, "qos": int(qos), "pid": int(pid)}}, func() *core.Finding { return c17ZeroPublish(topic, qos, pid) })
+				}
+			}
+		}
+	}
+	// a PUBLISH that was handed to Connect.SetWill, and the will message of
+	// a decoded CONNECT: the rule is about the message, not about what it was
+	// used for
+	if x.Mine() {
+		for _, topic := range []bool{false, true} {
+			for qos := uint8(0); qos < 4; qos++ {
+				for _, pid := range []uint16{0, 9} {
+					for _, dec := range []bool{false, true} {
+						topic, qos, pid, dec := topic, qos, pid, dec
+						x.Eval("used-as-will")
+						report(c17Will(topic, qos, pid, dec), core.Case{Harness: "c17.will", Params: map[string]any{"topic": topic, "qos": int(qos), "pid": int(pid), "decoded": dec}}, func() *core.Finding { return c17Will(topic, qos, pid, dec) })
+					}
 				}
 			}
 		}
@@ -735,6 +800,9 @@ func replayC17(c core.Case) *core.Finding {
 			}
 		}
 		return c17SubFlags(paramInt(c.Params, "nibble"), fs)
+	case "c17.will":
+		tp, _ := c.Params["topic"].(bool)
+		return c17Will(tp, uint8(paramInt(c.Params, "qos")), uint16(paramInt(c.Params, "pid")), dec)
 	case "c17.zero":
 		tp, _ := c.Params["topic"].(bool)
 		return c17ZeroPublish(tp, uint8(paramInt(c.Params, "qos")), uint16(paramInt(c.Params, "pid")))
